@@ -230,6 +230,21 @@ def diff(expected: Any, found: Any, path: str = "", out: list | None = None, lim
     return out
 
 
+def same(expected: Any, found: Any) -> bool:
+    """ fast equality with the semantics of `diff` (bool is not a number, 1 == 1.0) """
+    if type(expected) is not type(found):
+        if isinstance(expected, bool) or isinstance(found, bool):
+            return False
+        if not (isinstance(expected, (int, float)) and isinstance(found, (int, float))):
+            return False
+        return expected == found
+    if isinstance(expected, dict):
+        return expected.keys() == found.keys() and all(same(val, found[key]) for key, val in expected.items())
+    if isinstance(expected, (list, tuple)):
+        return len(expected) == len(found) and all(same(a, b) for a, b in zip(expected, found))
+    return expected == found
+
+
 def _short(entries: list) -> str:
     return repr([e[:2] if isinstance(e, list) else e for e in entries])[:250]
 
